@@ -178,6 +178,8 @@ pub enum Op {
     /// Parse(name) of a statement the server rejects at first (its table does not exist yet) + Sync, then the same text is
     /// prepared again under the same name, bound and executed: now it must work
     LateTable(u8),
+    /// (two shards) SET SHARD TO k outside a transaction: the client's next batches run on the other backend
+    SetShard(u8),
 }
 
 #[derive(Clone, Debug, Serialize, Deserialize)]
@@ -191,6 +193,9 @@ pub struct WireCase {
     /// replay files of known findings set this to run the excluded shape
     #[serde(default)]
     pub allow_known: bool,
+    /// two shards (a backend each): clients move between them with SET SHARD, their statements must follow
+    #[serde(default)]
+    pub two_shards: bool,
 }
 
 pub struct WirePart;
@@ -209,7 +214,7 @@ impl Part for WirePart {
         true
     }
     fn rule(&self) -> String {
-        "1..3 clients, prepared_statements_cache_size 1/2/8, pool_size 1..2; histories of 3..16 operations over names {unnamed, s1, s2} shared by all clients and a pool of 14 statements shared between clients (adjacent text/type encodings, whitespace-only differences): Parse, Bind/Describe/Execute of a name (optionally preparing it in the same batch), two statements in one batch, Close, BEGIN/COMMIT to pin connections, SQL PREPARE (forces DEALLOCATE ALL at check-in), a Parse the server rejects, a statement the server rejects once (its table does not exist yet) and that is then prepared again and used, a statement that prepares fine and fails when executed, a RELOAD that rebuilds the pool under the connected clients. Model: per client name -> most recently prepared (text, types). Oracle per batch, from the mock backend's log: every Execute ran exactly the model's text and parameter types, the backend raised no duplicate/unknown-statement error, Parse/Bind bytes reaching the backend differ from the client's only in the statement name, the client got a complete reply. Non-trivial = two clients use one name for different statements, a statement is evicted, or a batch runs on a connection that has not seen its statement".into()
+        "1..3 clients, prepared_statements_cache_size 1/2/8, pool_size 1..2, one shard or two (a backend each, clients move with SET SHARD); histories of 3..16 operations over names {unnamed, s1, s2} shared by all clients and a pool of 14 statements shared between clients (adjacent text/type encodings, whitespace-only differences): Parse, Bind/Describe/Execute of a name (optionally preparing it in the same batch), two statements in one batch, Close, BEGIN/COMMIT to pin connections, SQL PREPARE (forces DEALLOCATE ALL at check-in), a Parse the server rejects, a statement the server rejects once (its table does not exist yet) and that is then prepared again and used, a statement that prepares fine and fails when executed, a RELOAD that rebuilds the pool under the connected clients. Model: per client name -> most recently prepared (text, types). Oracle per batch, from the mock backend's log: every Execute ran exactly the model's text and parameter types, the backend raised no duplicate/unknown-statement error, Parse/Bind bytes reaching the backend differ from the client's only in the statement name, the client got a complete reply. Non-trivial = two clients use one name for different statements, a statement is evicted, or a batch runs on a connection that has not seen its statement".into()
     }
     fn cases(&self, tier: Tier) -> u64 {
         tier.pick(1_600, 24_000)
@@ -227,9 +232,10 @@ impl Part for WirePart {
             1 => st.prop_map(Op::FailParse),
             1 => Just(Op::Reload),
             1 => (0u8..3).prop_map(Op::LateTable),
+            2 => (0u8..2).prop_map(Op::SetShard),
         ];
-        (prop_oneof![Just(1u8), Just(2u8), Just(8u8)], 1u8..=2, 1u8..=3, prop_oneof![Just(1u8), Just(2u8)], prop::collection::vec((0u8..3, op), 3..17))
-            .prop_map(|(cache, pool_size, clients, workers, steps)| WireCase { cache, pool_size, clients, workers, steps, allow_known: false })
+        (prop_oneof![Just(1u8), Just(2u8), Just(8u8)], 1u8..=2, 1u8..=3, prop_oneof![Just(1u8), Just(2u8)], prop::collection::vec((0u8..3, op), 3..17), prop::bool::weighted(0.35))
+            .prop_map(|(cache, pool_size, clients, workers, steps, two_shards)| WireCase { cache, pool_size, clients, workers, steps, allow_known: false, two_shards })
             .boxed()
     }
     fn run(&self, c: &WireCase, ctx: &mut WorkerCtx) -> Outcome {
@@ -244,6 +250,9 @@ fn config(mocks: &[crate::mock::MockServer], c: &WireCase) -> PgcatConfig {
     let servers = vec![ServerDef { host: mocks[0].ip.clone(), port: mocks[0].port, role: "primary".into() }];
     let mut pool = pgc::simple_pool("db", "u", "pw", c.pool_size as u32, servers);
     pool.set("prepared_statements_cache_size", &c.cache.to_string());
+    if c.two_shards {
+        pool.shards.push(crate::pgc::ShardDef { id: "1".into(), database: "db_shard1".into(), servers: vec![ServerDef { host: mocks[1].ip.clone(), port: mocks[1].port, role: "primary".into() }], mirrors: vec![] });
+    }
     cfg.pools.push(pool);
     cfg
 }
@@ -252,7 +261,11 @@ type Stm = (String, Vec<i32>);
 
 async fn run_wire(c: &WireCase, ctx: &mut WorkerCtx) -> Outcome {
     let mut o = Outcome::pass();
-    let env = match Env::start(ctx, &[BackendSpec::trust("127.0.0.1", "p0")], |m| config(m, c)).await {
+    let mut specs = vec![BackendSpec::trust("127.0.0.1", "p0")];
+    if c.two_shards {
+        specs.push(BackendSpec::trust("127.0.0.1", "p1"));
+    }
+    let env = match Env::start(ctx, &specs, |m| config(m, c)).await {
         Ok(e) => e,
         Err(e) => {
             o.inconclusive = Some(e);
@@ -273,6 +286,8 @@ async fn run_wire(c: &WireCase, ctx: &mut WorkerCtx) -> Outcome {
     }
     let mut names: Vec<HashMap<String, Stm>> = vec![HashMap::new(); n];
     let mut in_txn = vec![false; n];
+    // shard each client has selected (0 until it says otherwise)
+    let mut shard_of = vec![0usize; n];
     let mut reloads = 0u32;
     let mut distinct_stmts: std::collections::HashSet<Stm> = Default::default();
     let mut conn_seen: HashMap<u64, std::collections::HashSet<Stm>> = HashMap::new();
@@ -282,7 +297,8 @@ async fn run_wire(c: &WireCase, ctx: &mut WorkerCtx) -> Outcome {
     'steps: for (si, (ci, op)) in c.steps.iter().enumerate() {
         let i = *ci as usize % n;
         o.sub_evaluations += 1;
-        let busy = in_txn.iter().filter(|x| **x).count();
+        // (connections are pooled per shard)
+        let busy = (0..n).filter(|j| in_txn[*j] && shard_of[*j] == shard_of[i]).count();
         // a batch needs a server: skip when every pooled connection is pinned by another client's transaction
         let needs_server = !in_txn[i];
         if needs_server && busy >= c.pool_size as usize {
@@ -372,6 +388,21 @@ async fn run_wire(c: &WireCase, ctx: &mut WorkerCtx) -> Outcome {
                 let name = NAMES[*nm as usize % 3];
                 bytes.extend_from_slice(&proto::close(b'S', name));
                 names[i].remove(name);
+            }
+            Op::SetShard(k) => {
+                if !c.two_shards || in_txn[i] {
+                    continue;
+                }
+                let (m, e) = clis[i].simple(&format!("SET SHARD TO '{}'", k % 2), wire::T_REPLY).await;
+                if !matches!(e, ReadEnd::Ready(_)) || m.iter().any(|x| x.code == b'E') {
+                    o.inconclusive = Some(format!("SET SHARD TO '{}' -> {:?} {:?}", k % 2, e, crate::cli::errors(&m)));
+                    break;
+                }
+                if shard_of[i] != (*k as usize % 2) {
+                    o.label("client_moved_to_other_shard");
+                }
+                shard_of[i] = *k as usize % 2;
+                continue;
             }
             Op::Begin => {
                 if in_txn[i] {
